@@ -162,18 +162,30 @@ def c16_tvd(ctx, method, history):
     ctx.ensure("no module- or class-level state written (frame)", frame.diff(before, frame.snapshot(FRAME_MODS + ["darsia.restoration.tvd", "darsia.restoration.split_bregman_tvd"])) == [])
 
 
-@ob("C16.anderson", kind="B", cases=product_cases(depth=(1, 3), restart=(None, 2, 4), tensor=(False, True)), funcs=FUNCS, samples=(1, 3),
-    cite="an Anderson-accelerated iteration ... Anderson restart boundaries", note="bounded: scipy.linalg.lstsq; re-used accelerator (second run starting again at iteration 0) vs fresh accelerator")
-def c16_anderson(ctx, depth, restart, tensor):
+def _anderson_cases(tier):
+    out = []
+    for depth, restart in ((1, None), (3, None), (1, 2), (3, 2), (3, 4), (2, 3), (3, 5), (5, 3), (4, 6), (3, 6)):
+        for start in ((0,) if restart is None else (0, 1, 2)):          # the final run starts at iteration start * restart (a restart boundary)
+            for tensor in (False, True):
+                out.append(dict(depth=depth, restart=restart, tensor=tensor, start=start))
+    return out
+
+
+@ob("C16.anderson", kind="B", cases=_anderson_cases, funcs=FUNCS, samples=(1, 3),
+    cite="an Anderson-accelerated iteration ... depends only on the arguments of that call ... Anderson restart boundaries",
+    note="bounded: scipy.linalg.lstsq; re-used accelerator (earlier run, then a run starting at iteration 0 or at a later restart boundary) vs fresh accelerator given the same calls")
+def c16_anderson(ctx, depth, restart, tensor, start=0):
     rng = np.random.default_rng(ctx.rng.randrange(1 << 30))
     n = 6
     A = 0.3 * rng.random((n, n)) / n
     b = rng.random(n)
 
-    def run(acc, x, iters=7):
+    first_it = start * (restart or 0)
+
+    def run(acc, x, iters=None, begin=0):
         shape = (2, 3) if tensor else (n,)
         out = []
-        for it in range(iters):
+        for it in range(begin, begin + (iters or 2 * (restart or 4) + 3)):
             g = A @ x.ravel() + b
             f = g - x.ravel()
             x = np.asarray(acc(g.reshape(shape), f.reshape(shape), it)).reshape(-1)
@@ -181,12 +193,12 @@ def c16_anderson(ctx, depth, restart, tensor):
         return out
     dimarg = (2, 3) if tensor else n
     used = darsia.AndersonAcceleration(dimarg, depth, restart)
-    run(used, rng.random(n), iters=5)                 # earlier, unrelated iteration
+    run(used, rng.random(n), iters=max(5, first_it))                 # earlier, unrelated iteration (runs up to the boundary the final run starts at)
     x0 = rng.random(n)
-    a = run(used, x0.copy())
+    a = run(used, x0.copy(), begin=first_it)
     fresh = darsia.AndersonAcceleration(dimarg, depth, restart)
-    c = run(fresh, x0.copy())
-    ctx.ensure("re-used accelerator (restarted at iteration 0) reproduces a fresh accelerator step by step", all(_rel(p, q) for p, q in zip(a, c)))
+    c = run(fresh, x0.copy(), begin=first_it)
+    ctx.ensure(f"re-used accelerator (run starting at the restart boundary {first_it}) reproduces a fresh accelerator step by step", all(_rel(p, q) for p, q in zip(a, c)))
 
 
 @ob("C16.jacobi_inplace", cases=product_cases(form=("1d", "2d"), which=("mass", "diffusion", "both")), mods=MODS, funcs=FUNCS, samples=(2, 5),
